@@ -13,6 +13,7 @@ EXPLANATION = ("L1 reply senders are owned only by the driver's two routing maps
 TRUSTED = ['dropping a tokio Sender wakes and fails its receiver', 'tokio select!/scheduler fairness']
 UNDECIDED = ['liveness under the scheduler', 'fault injection at every byte boundary (dynamic notion)']
 ASSUMPTIONS = []
+SHARED = [('C16', ('A2.follow-up-error-returned',), 'L8.paged-follow-up-failure-is-an-error')]
 
 LEAKERS = ('core::mem::forget', 'core::mem::manually_drop::ManuallyDrop::<T>::new', 'alloc::boxed::Box::<T, A>::leak', 'alloc::boxed::Box::<T>::leak',
            'alloc::sync::Arc::<T, A>::into_raw', 'alloc::sync::Arc::<T>::into_raw', 'alloc::boxed::Box::<T, A>::into_raw', 'alloc::boxed::Box::<T>::into_raw',
